@@ -26,6 +26,8 @@ pub fn opts() -> GenOpts {
     o.env = true;
     // (an adjacent group must start with a named item, so no environment-only items here)
     o.env_only = false;
+    // a failure with items on the line is a failure, whatever `fallback_to_usage` says
+    o.usage_fallback = true;
     o
 }
 
@@ -217,6 +219,10 @@ pub fn run_case(case: &mut Case) {
                 .collect();
             let mut root_items = Vec::new();
             b.spec.root.level_items(&mut root_items);
+            if b.spec.fallback_to_usage && line.argv.is_empty() {
+                // a failing run without any item prints the usage on stdout by request
+                root_items.clear();
+            }
             for it in root_items {
                 let var = match it.names.envs.first() {
                     Some(v) if it.is_arg() && !on_line.contains(&it.id) => v.clone(),
